@@ -4,6 +4,7 @@ package gomatrixserverlib
 
 import (
 	"fmt"
+	"strconv"
 	"strings"
 	"time"
 
@@ -340,6 +341,48 @@ func c09Check(ctx *vfCtx, c c09Case) {
 		if ok1 && ok2 && vFull != vSel {
 			ctx.Fail("C09/add-auth-events-insufficient", "event built with AddAuthEvents is %s against the full state but %s against exactly its auth_events %v; event=%s", vFull, vSel, built.AuthEventIDs(), built.JSON())
 		}
+		// the same selection from a provider that does NOT hold the create event (a caller that knows
+		// the create event by the room ID, as in the room versions whose room ID IS that event's ID):
+		// every needed event the provider holds is still named
+		var noCreate []PDU
+		for _, e := range full {
+			if !(e.Type() == spec.MRoomCreate && e.StateKeyEquals("")) {
+				noCreate = append(noCreate, e)
+			}
+		}
+		if len(noCreate) == len(full) {
+			return
+		}
+		var built2 PDU
+		eb2 := impl.NewEventBuilderFromProtoEvent(pe)
+		if vfCatch(ctx, "C09/build-without-create", func() {
+			prov, _ := NewAuthEvents(noCreate)
+			if berr = eb2.AddAuthEvents(prov); berr != nil {
+				return
+			}
+			_, priv := vfKeyFor("origin:x")
+			built2, berr = eb2.Build(time.UnixMilli(5000), "a.example", "ed25519:1", priv)
+		}) {
+			return
+		}
+		if berr != nil || built2 == nil {
+			ctx.Class("build-without-create-refused")
+			return
+		}
+		ctx.Class("built-with-AddAuthEvents/provider-without-create-event")
+		refs2 := map[string]bool{}
+		for _, id := range built2.AuthEventIDs() {
+			refs2[id] = true
+		}
+		for _, e := range selected {
+			if e.Type() == spec.MRoomCreate && e.StateKeyEquals("") {
+				continue
+			}
+			if !refs2[e.EventID()] {
+				ctx.Fail("C09/add-auth-events-insufficient/provider-without-create-event", "with the create event the selection names %s (%s, %q); from a provider that holds everything but the create event it is missing: %v", e.EventID(), e.Type(), *e.StateKey(), built2.AuthEventIDs())
+				return
+			}
+		}
 	}
 }
 
@@ -564,6 +607,58 @@ func c09Gen(t *rapid.T) c09Case {
 	c.Final = c09Step{Room: fr, Event: c09GenEvent(t, version, variants[fr], built[fr], "final")}
 	if focus != "" {
 		c.Final.Event = c09Resend(version, c.Final.Event, focus, false)
+	}
+	if base.HasPL && rapid.IntRange(0, 5).Draw(t, "typedThenState") == 0 {
+		// a power-levels event that NAMES an event type the current levels do not list goes through the
+		// checker (allowed or not — it is not applied: the state stays the same), then a state event of
+		// that type is checked against the same state: its requirement is still state_default
+		typ := rapid.SampledFrom([]string{"m.room.name", "org.example.widget"}).Draw(t, "ttsType")
+		cur := built[0]
+		var plSender, low string
+		users, _ := base.PL.get("users")
+		for _, u := range c07Users {
+			if base.Members[u] != "join" {
+				continue
+			}
+			lv := int64(0)
+			if x, ok := users.get(u); ok && x.K == '#' {
+				lv, _ = strconv.ParseInt(x.S, 10, 64)
+			} else if ud, ok := base.PL.get("users_default"); ok && ud.K == '#' {
+				lv, _ = strconv.ParseInt(ud.S, 10, 64)
+			}
+			if lv >= 50 && plSender == "" {
+				plSender = u
+			}
+			if lv < 50 && low == "" {
+				low = u
+			}
+		}
+		if plSender == "" {
+			plSender = rapid.SampledFrom(c07Users).Draw(t, "ttsPLSender")
+		}
+		if low == "" {
+			low = rapid.SampledFrom(c07Users).Draw(t, "ttsLow")
+		}
+		ev0, _ := base.PL.get("events")
+		if ev0.K != 'o' {
+			ev0 = jobj("m.room.topic", jnum(50))
+		}
+		npl := base.PL.with("events", ev0.with(typ, jnum(int64(rapid.SampledFrom([]int{0, 0, 25}).Draw(t, "ttsLevel")))))
+		if rapid.Bool().Draw(t, "ttsAlsoPromote") {
+			// ... and is refused, because it also raises its sender above his level
+			us := users
+			if us.K != 'o' {
+				us = jv{K: 'o'}
+			}
+			npl = npl.with("users", us.with(plSender, jnum(1000)))
+		}
+		mk := func(e raEv, id string) vfBytes {
+			e.Room, e.Depth, e.TS, e.Prev, e.ID = cur.RoomID, 50, 5000, []string{evFakeID(t, version, id+"prev")}, "$c09"+id+":a.example"
+			return vfBytes(jplain(raJSON(version, e)))
+		}
+		c.Steps = append(c.Steps, c09Step{Room: 0, Event: mk(raEv{Type: "m.room.power_levels", Sender: plSender, StateKey: raSK(""), Content: npl}, "ttspl")})
+		c.Final = c09Step{Room: 0, Event: mk(raEv{Type: typ, Sender: low, StateKey: raSK(""), Content: jobj("name", jstr("n"))}, "ttsfinal")}
+		fr = 0
 	}
 	np := rapid.IntRange(0, 3).Draw(t, "npad")
 	for i := 0; i < np; i++ {
